@@ -203,6 +203,9 @@ class SymbolKindTable:
                         tbl[name] = kind
 
         else:
+            # Statements processed earlier may have settled for a partial
+            # answer not involving this name.
+            self._changed = True
             tbl[name] = kind
 
     def get(self, phase_name, name):
